@@ -243,6 +243,10 @@ def search(ctx, diffs, proof):
 
 
 def run(ctx):
+    if ctx.replay:
+        # every case derives from the seed: a replay re-runs the stages with the recorded seed
+        import json
+        ctx.seed = int(json.load(open(ctx.replay)).get("seed", ctx.seed))
     proof = core.proof_stage(PID, extra_targets=["Ben/Extract.vo", "Ben/ProofsExamples.vo"], tier=ctx.tier)
     for p in proof["problems"]:
         core.log("proof-stage problem:", p)
